@@ -23,7 +23,7 @@ CHECKS = {
     "C10": {"level": "exploration", "stages": [("e1", "C10", 20000, 700000, {})]},
     "C13": {"level": "exploration", "stages": [("e1c13", "C13", 20000, 700000, {}), ("e6", "C13", 0, 0, {"runs_factor": 1})]},
     "C15": {"level": "exploration", "stages": [("e4", "C15", 0, 0, {}), ("e4", "C15", 0, 0, {"wide": 1, "n_quick": 32, "n_thorough": 600}), ("e1", "C15", 30000, 1000000, {})]},
-    "C16": {"level": "exploration", "stages": [("e1", "C16", 30000, 1000000, {}), ("e3", "C16", 20000, 600000, {}), ("e6", "C16", 0, 0, {"interpreted": 1}),
+    "C16": {"level": "exploration", "stages": [("e1", "C16", 30000, 1000000, {}), ("e3", "C16", 20000, 600000, {}), ("e2", "C16", 8000, 400000, {}), ("e6", "C16", 0, 0, {"interpreted": 1}),
                                                  ("e7", "C16", 60000, 1500000, {"boundscheck": 1})]},
     "C17": {"level": "exploration", "stages": [("e1", "C17", 30000, 1000000, {}), ("e2", "C17", 8000, 400000, {})]},
     "C11": {"level": "exploration", "stages": [("e2", "C11", 20000, 1500000, {})]},
